@@ -313,3 +313,23 @@ Definition qrank (x : qpc) := match x with QDead _ => 0 | QWait => 1 | QSent => 
 Definition wrank (x : wpc) := match x with WDead => 0 | WBlock => 1 | WTry => 2 | WTop => 3 | WRun _ => 4 end.
 Definition lrank (l : lane) := 9 * length (buf l) + qrank (q l) + wrank (w l).
 Definition measure (s : state) := list_sum (map lrank (lanes s)) + (if cancelled s then 0 else 1).
+
+(* ---------- predicates the theorems are stated with ---------- *)
+Definition is_wend (l : label) : bool := match l with WEnd _ _ => true | _ => false end.
+Definition is_cancel (l : label) : bool := match l with Cancel => true | _ => false end.
+(* labels that need nothing from outside the lane: internal steps and task returns *)
+Definition quiet (l : label) : bool := internal l || is_wend l.
+(* no label of class P is enabled *)
+Definition stuck (qs : nat) (P : label -> bool) (s : state) : Prop :=
+  forall l, P l = true -> step qs s l = None.
+Definition qalive (x : qpc) : bool := match x with QDead _ => false | _ => true end.
+Definition walive (x : wpc) : bool := match x with WDead => false | _ => true end.
+Definition lane_dead (l : lane) : Prop := qalive (q l) = false /\ walive (w l) = false.
+(* all 2*laneSize goroutines have returned: Wait() returns *)
+Definition all_dead (s : state) : Prop := Forall lane_dead (lanes s).
+Definition all_workers_running (s : state) : bool :=
+  forallb (fun l => match w l with WRun _ => true | _ => false end) (lanes s).
+Definition idle_worker (x : wpc) : bool := match x with WTop | WTry | WBlock => true | _ => false end.
+(* no queue goroutine is between receive and count (QTook) or between hand-over and decrement (QSent) *)
+Definition at_rest (s : state) : bool :=
+  forallb (fun l => match q l with QTook _ | QSent => false | _ => true end) (lanes s).
